@@ -332,8 +332,15 @@ def gen_program(rng, size=3):
         caller = c.fresh("k")
         args = " ".join(str(rng.randint(1, 9)) for _ in range(ar))
         forms.append("(define (%s) (%s %s))" % (caller, f, args))
-        shape = rng.choice(["rest", "more", "fewer"])
-        if shape == "rest":
+        shape = rng.choice(["rest", "more", "fewer", "all", "wrapped"])
+        if shape == "all":
+            forms.append("(set! %s (lambda args (list 'all args)))" % f)
+        elif shape == "wrapped":
+            # the new value comes out of a call (a memoising / tracing wrapper): a purely variadic closure over the old one
+            w = c.fresh("wr")
+            forms.append("(define (%s g) (lambda args (cons 'wrapped (cons args (apply g args)))))" % w)
+            forms.append("(set! %s (%s (lambda xs (list (length xs)))))" % (f, w))
+        elif shape == "rest":
             forms.append("(set! %s (lambda (x . r) (list 'rest x r)))" % f)
         elif shape == "more":
             forms.append("(set! %s (lambda (%s) (list 'more %s)))" % (f, " ".join("p%d" % i for i in range(ar + 1)), "p0"))
